@@ -493,3 +493,48 @@ Proof.
     - exfalso. eapply build_walk_no_panic. exact Eb. }
   destruct r; try (destruct (max_list_len <? _)); cbn [snd]; try discriminate. congruence.
 Qed.
+
+(* ---------------------------------------------------------------- the header of the result, oversize *)
+(* build takes the header of the result from the fragment that arrived last (its argument), whatever
+   the header lengths of the stored fragments are; it refuses when that header plus the payload
+   does not fit the 16-bit Length *)
+Lemma build_header fl i d :
+  build fixedv fl i = RDg d ->
+  key_of d = key_of i /\ f_ihl d = f_ihl i /\ f_hdr d = f_hdr i /\ f_flags d = 0 /\ f_off d = 0 /\
+  f_len d = 4 * f_ihl i + plen d /\ 4 * f_ihl i + plen d <= 65535.
+Proof.
+  intros H. unfold build in H. cbn [v_ovl v_len fixedv andb] in H.
+  destruct (build_walk fixedv (fl_list fl) 0) as [[final cur]| |]; try discriminate.
+  destruct (negb (cur =? fl_highest fl)); [discriminate|].
+  destruct (65535 <? f_ihl i * 4 + Z.of_nat (length final)) eqn:El; [discriminate|].
+  inversion H; subst d. unfold key_of, plen. cbn [f_src f_dst f_id f_flags f_off f_ihl f_hdr f_len f_payload].
+  repeat split; try reflexivity; lia.
+Qed.
+
+Lemma build_oversize fl i final cur :
+  build_walk fixedv (fl_list fl) 0 = Ok (final, cur) ->
+  65535 < 4 * f_ihl i + Z.of_nat (length final) -> build fixedv fl i = RErr.
+Proof.
+  intros Hw Ho. unfold build. rewrite Hw. cbn [v_ovl v_len fixedv andb].
+  destruct (negb (cur =? fl_highest fl)); [reflexivity|].
+  replace (65535 <? f_ihl i * 4 + Z.of_nat (length final)) with true by lia. reflexivity.
+Qed.
+
+Lemma insert_result fl f t fl' d : insert fixedv fl f t = (fl', RDg d) -> build fixedv fl' f = RDg d.
+Proof. intros H. destruct (insert_list _ _ _ _ _ H) as [_ Hb]. apply Hb. reflexivity. Qed.
+
+(* from ANY state, for ANY fragment (no hypothesis at all): a returned datagram carries the header
+   of the fragment just handed over, Length = 4*IHL + |payload|, and that is at most 65535 --
+   a set that would need more is answered with an error or nothing *)
+Theorem v4_oversize_refused st f t st' d :
+  defrag4 fixedv st f t = (st', RDg d) ->
+  key_of d = key_of f /\ f_ihl d = f_ihl f /\ f_hdr d = f_hdr f /\ f_flags d = 0 /\ f_off d = 0 /\
+  f_len d = 4 * f_ihl f + plen d /\ 4 * f_ihl f + plen d <= 65535.
+Proof.
+  intros H. unfold defrag4 in H.
+  destruct (dont_defrag f); [discriminate|].
+  destruct (negb (security_ok fixedv f)); [discriminate|].
+  destruct (insert fixedv _ f t) as [fl' r] eqn:Ei.
+  destruct r as [| | | |d0]; try (destruct (max_list_len <? _)); try discriminate.
+  inversion H; subst. apply (build_header fl' f d). eapply insert_result. exact Ei.
+Qed.
